@@ -714,8 +714,7 @@ func decideC04(c *vh.Case, spec c04Spec) {
 						}
 						c.Violate(key, "call %d cancelled at %dus over %s (version %q, propagate=%v): its handler (started %dus) never observed ctx.Done", n, ct, spec.Transport, spec.Version, spec.Propagate, hs.T)
 						return
-					}
-					if hd.T != ct {
+					} else if hasDone && hd.T != ct {
 						c.Violate("handler-cancelled-late", "call %d cancelled at %dus: its handler observed ctx.Done only at %dus", n, ct, hd.T)
 						return
 					}
